@@ -191,4 +191,51 @@ def step (cfg : Cfg) (s : St) : Act → St
 
 def run (cfg : Cfg) (s : St) (acts : List Act) : St := acts.foldl (step cfg) s
 
+
+/-! ### payload frames of `RemoteAsk` (internal/remoteclient/client.go `serializePayload` + `payloadPool`)
+
+The request a call writes is built in a pooled byte buffer that the envelope references until `SendProto` has
+marshalled it.  `write` above appends the caller's OWN request: that presupposes that no other call writes into
+the same buffer meanwhile.  The pool discipline that guarantees it: a buffer is taken with `Get`, owned by one
+call, and given back with `Put` exactly once (the single `defer r.payloadPool.Put(marshaled)`).  The pool is a
+bag of boxes, each box references a backing array (sync.Pool does not de-duplicate). -/
+namespace Payload
+
+structure PSt where
+  pool : List Nat := []              -- backing arrays referenced by the boxes in the pool
+  owned : List (Nat × Nat) := []     -- (call, backing array) for calls between serializePayload and their Put
+  next : Nat := 0                    -- next fresh array
+  deriving DecidableEq, Repr
+
+inductive PAct where
+  /-- `serializePayload`: `payloadPool.Get` — a pooled box if there is one, else a fresh array -/
+  | get (call : Nat)
+  /-- the deferred `payloadPool.Put(marshaled)` of call `call` (runs once: the entry leaves `owned`) -/
+  | put (call : Nat)
+  /-- NOT in the code: a second `Put` of a buffer that was already given back (`arr` chosen by the schedule);
+      only used to show what the discipline excludes -/
+  | putAgain (arr : Nat)
+  deriving DecidableEq, Repr
+
+def pstep (s : PSt) : PAct → PSt
+  | .get call =>
+    if s.owned.any (·.1 == call) then s else
+    match s.pool with
+    | b :: rest => { s with pool := rest, owned := (call, b) :: s.owned }
+    | [] => { s with owned := (call, s.next) :: s.owned, next := s.next + 1 }
+  | .put call =>
+    match s.owned.find? (·.1 == call) with
+    | some e => { s with owned := s.owned.filter (fun x => !(x.1 == call)), pool := e.2 :: s.pool }
+    | none => s
+  | .putAgain arr => { s with pool := arr :: s.pool }
+
+/-- the actions the code can perform -/
+def PAct.legal : PAct → Bool
+  | .putAgain _ => false
+  | _ => true
+
+def prun (s : PSt) (acts : List PAct) : PSt := acts.foldl pstep s
+
+end Payload
+
 end GoaktVerif.Model.C28
